@@ -439,6 +439,15 @@ def check_bodies(ctx, b, tag, stacks, E, S):
             k, v = ins[0][3][1], ins[0][3][2]
             good = mentions(k, ("param", 2)) and callee_is(peel(k, ()), "From::from", "Into::into") and mentions(v, ("param", 3))
         ctx.check(good, "R19.3", "%s/%s/inserts-(name,instruction-of-value)" % (tag, name), ", ".join(short(c, 4) for c in ins), f.at())
+    # the builder starts from the default state
+    dfl = [fn for fn in F.fns.values() if fn.trait_item == "std::default::Default::default" and fn.locals[0]["ty"].get("path") == b.path]
+    okd = len(dfl) == 1
+    if okd:
+        ps0 = return_paths(ctx.paths(dfl[0]))
+        okd = len(ps0) == 1 and match(ps0[0].ret, Agg(ANY, Call("Default::default", nargs=0), ANY)) and ps0[0].ret[1] == "adt"
+        init_ok = all(marker_name(a) == "()" for a in dfl[0].locals[0]["ty"].get("args") or [])
+        okd = okd and init_ok
+    ctx.check(okd, "R19.3", tag + "/builder-starts-from-default-state-with-all-markers-()", dfl[0].locals[0]["ty"]["s"][-80:] if dfl else "-", at if False else b.adt["span"]["at"])
     # HasStack accessors of the state struct
     hs = [im for im in F.impls if im.get("trait") == "push::push_vm::stack::HasStack" and im["self"].get("path") == b.state_path]
     ctx.check(len(hs) == len(stack_fields), "R19.3", tag + "/one-HasStack-impl-per-stack-field", "%d impls, %d Stack fields" % (len(hs), len(stack_fields)), sadt["span"]["at"])
